@@ -212,6 +212,7 @@ func LabelStacks() []bgp.MPLSLabelStack {
 		*bgp.NewMPLSLabelStack(3, 0),        // explicit-null at the bottom
 		*bgp.NewMPLSLabelStack(0, 16),       // explicit-null on top (RFC 4182)
 		*bgp.NewMPLSLabelStack(0x80000, 16), // 0x80000<<4 == 0x800000, the wire form of the withdraw label
+		*bgp.NewMPLSLabelStack(16, 0, 17),   // explicit-null between two labels
 		*bgp.NewMPLSLabelStack(bgp.WITHDRAW_LABEL),
 	}
 }
